@@ -30,6 +30,13 @@ fn expected_payload(case: &Case, node: u16, logged: &str) -> String {
     }
 }
 
+/// A mailbox that is alive but not part of the simulation (never added, or the child of a model
+/// that was never built): sends to it block for ever once it is full, so actions chained behind
+/// such a send may never run.
+fn orphans_exist(case: &Case) -> bool {
+    (0..case.nodes.len()).any(|i| !case.in_sim(i) && !case.nodes[i].dead)
+}
+
 /// Source index named by the scheduling command of request `req`.
 fn action_source(h: &Hist, req: &crate::hist::SchedReq) -> Option<usize> {
     let cmd = h.cmd(req.cmd)?;
@@ -160,6 +167,27 @@ fn causes(case: &Case, h: &Hist, ag: &Agenda, c: &CmdRec) -> Causes {
             k.timeout = true;
         }
     }
+    // The failure propagates: a model whose send fails because its peer's task died dies itself
+    // (SendError), which closes its own mailbox, and so on.
+    if !k.victims.is_empty() {
+        loop {
+            let mut grew = false;
+            for s in &h.sends {
+                let Actor::Node(x) = s.actor else { continue };
+                if s.begin < lo || s.begin > hi || s.port >= 2000 || k.victims.contains(&x) {
+                    continue;
+                }
+                let extra_now: Vec<(u16, u8, Edge)> = extra.iter().filter(|(seq, ..)| *seq < s.begin).map(|(_, n, p, e)| (*n, *p, e.clone())).collect();
+                if expected_deliveries(case, s.actor, s.port, s.salt, &extra_now).iter().any(|d| matches!(d.target, Target::Node(t) if k.victims.contains(&t))) {
+                    k.victims.push(x);
+                    grew = true;
+                }
+            }
+            if !grew {
+                break;
+            }
+        }
+    }
     if let Some(tol) = case.cfg.tolerance {
         // The init-time synchronisation is not gated by the tolerance.
         if c.idx != 0 {
@@ -221,7 +249,7 @@ pub fn classification(case: &Case, h: &Hist, ag: &Agenda) -> Vec<Violation> {
             if *res != Res::OutOfSync(lag) {
                 v.push(Violation::keyed("c11_out_of_sync_misreported", res.class(), format!("{} although the clock reported a lag of {} ns above the tolerance {:?}", what, lag, case.cfg.tolerance)));
             }
-        } else if k.dead_action_certain {
+        } else if k.dead_action_certain && !orphans_exist(case) {
             if *res != Res::NoRecipient(None) {
                 v.push(Violation::keyed("c11_no_recipient_misreported", res.class(), format!("{} although a scheduled event-source action with a dropped recipient was due during the call (expected NoRecipient {{ model: None }})", what)));
             }
